@@ -68,7 +68,11 @@ def oracle_cases(ctx, flags_list, relation, n_corpus, n_mut, origins=None, n_ins
 def run_oracle(ctx, cases, pid_keys):
     """evaluate cases on the real code; classify failures against the known findings of this property"""
     known = {f["id"]: f for f in core.findings_by_site(ctx)}
+    import os, time
+    _t = time.time()
     results = semcheck.pool_map(semcheck.evaluate_case, cases)
+    if os.environ.get("VERIF_PROFILE"):
+        print(f"[profile]   oracle evaluation of {len(cases)} cases: {time.time() - _t:.1f} s", flush=True)
     failures = []
     for case, r in zip(cases, results):
         st = r.get("status")
@@ -97,7 +101,10 @@ def run_oracle(ctx, cases, pid_keys):
             seen.add(key)
             uniq.append((case, r))
     failures = uniq
+    _t = time.time()
     classified = semcheck.pool_map(_classify, [r for _, r in failures], task_timeout=600) if failures else []
+    if os.environ.get("VERIF_PROFILE"):
+        print(f"[profile]   minimisation + classification of {len(failures)} failing cases: {time.time() - _t:.1f} s", flush=True)
     for (case, r), c in zip(failures, classified):
         if not isinstance(c, dict) or "small" not in c:
             c = _classify(r)   # a killed classification is repeated in the parent: a failure is never dropped
